@@ -337,20 +337,47 @@ type Service struct {
 	Schema *ast.Schema
 	Store  *Store
 	Ctl    *Controller
+	// InPlace, when set, makes WithMiddlewares keep the list on the service itself (see mwState)
+	InPlace *mwState
 }
 
 // svcMW is what WithMiddlewares returns: the same service, remembering the request middlewares
 type svcMW struct {
 	*Service
-	mws []graphql.NetworkMiddleware
+	mws  []graphql.NetworkMiddleware
+	live bool // the list is the one last set on the service itself (InPlace)
+}
+
+// mwState is the middleware list of a service that keeps it on itself, as the stock queryers of
+// nautilus/graphql do (SingleRequestQueryer.WithMiddlewares: q.mware = mwares; return q): every
+// execution of a plan that holds this queryer sets it, and sends with whatever is set by then
+type mwState struct {
+	mu  sync.Mutex
+	cur []graphql.NetworkMiddleware
+	rnd *rand.Rand
 }
 
 // WithMiddlewares makes every Service a graphql.QueryerWithMiddlewares
 func (s *Service) WithMiddlewares(mws []graphql.NetworkMiddleware) graphql.Queryer {
+	if s.InPlace != nil {
+		s.InPlace.mu.Lock()
+		s.InPlace.cur = mws
+		d := time.Duration(s.InPlace.rnd.Intn(400)) * time.Microsecond
+		s.InPlace.mu.Unlock()
+		if mws != nil {
+			time.Sleep(d) // what lies between setting the list and sending: serialising the variables, say
+		}
+		return &svcMW{Service: s, live: true}
+	}
 	return &svcMW{Service: s, mws: mws}
 }
 
 func (s *svcMW) Query(ctx context.Context, in *graphql.QueryInput, recv interface{}) error {
+	if s.live {
+		s.Service.InPlace.mu.Lock()
+		s.mws = s.Service.InPlace.cur
+		s.Service.InPlace.mu.Unlock()
+	}
 	// apply the middlewares to a request of our own and read back which ones ran, in order
 	req, _ := http.NewRequest(http.MethodPost, "http://"+s.Name, nil)
 	for _, m := range s.mws {
